@@ -192,6 +192,39 @@ func (prop) Generate(rng *core.Rand, tier string, emit0 func(string)) {
 		}
 		emit("ca " + strings.Join(evs, ";"))
 	}
+	// RENEWAL AT RUN TIME (maintenance pass of the process a start-up left running, hook
+	// VerifRenewCerts): every crash point and fault placement of a pass that renews, then restarts
+	for k := 1; k <= 5; k++ {
+		for _, m := range modes {
+			emit(fmt.Sprintf("ca s:-;m:%d%s;l:-;l:-", k, m))     // a synced pass, interrupted
+			emit(fmt.Sprintf("ca s:-;m:%d%s;m:-;s:-;m:-", k, m)) // … the process lives on (fb/fa) or not
+			emit(fmt.Sprintf("ca s:3ca;s:-;m:-;m:%d%s;l:-", k, m))
+		}
+	}
+	emit("ca m:-;l:-;m:-;s:-;m:-;m:2cb;m:-;l:1cb;m:-")
+	// the known defect (known_findings.jsonl, Witness.recovery_with_runtime_renewal_full_fails):
+	// the certificate write of a renewal reports an error after taking effect, the process keeps
+	// running unsynced, its next pass is interrupted between the two writes
+	emit("ca s:-;l:8fa;m:3ca;l:-")
+	for c := 0; c < nCA/10; c++ {
+		var evs []string
+		for i, n := 0, 2+rca.Intn(7); i < n; i++ {
+			f := "-"
+			if rca.Chance(1, 2) {
+				f = caFault(rca, 9)
+				if strings.HasSuffix(f, "fa") && rca.Chance(3, 4) {
+					f = f[:len(f)-2] + "fb" // keep most random histories inside the proved region
+				}
+			}
+			if i > 0 && rca.Chance(1, 2) {
+				evs = append(evs, "m:"+f)
+			} else {
+				evs = append(evs, life(rca, 3, 5)+":"+f)
+			}
+		}
+		evs = append(evs, "l:-")
+		emit("ca " + strings.Join(evs, ";"))
+	}
 	emit("ca l:-")
 	emit("ca s:-")
 	emit("ca l:-;l:-;l:-")
@@ -304,7 +337,7 @@ func (prop) Generate(rng *core.Rand, tier string, emit0 func(string)) {
 	}
 
 	// ---- malformed
-	bad := []string{"ca", "ca ", "ca x", "ca l", "ca l:", "ca l:0cb", "ca l:3xx", "ca m:-", "ca l:-;", "ca l:-;;l:-", "ca l:-3cb", "ca d:xx", "ca c:rc", "ca c:rc>zz", "ca d:", "ca c:rc>rk>ik",
+	bad := []string{"ca", "ca ", "ca x", "ca l", "ca l:", "ca l:0cb", "ca l:3xx", "ca m:-", "ca l:-;", "ca l:-;;l:-", "ca l:-3cb", "ca m", "ca m:", "ca m:0cb", "ca m:-:-", "ca d:xx", "ca c:rc", "ca c:rc>zz", "ca d:", "ca c:rc>rk>ik",
 		"as", "as L", "as L1", "as L1:d", "as L1:q:-", "as L1:d:K0", "as L1:d:X1", "as L1:dd:-", "as Lx:d:-", "as R;", "as L1:d:K1;L2:d:F1", "as U:", "as u", "as L1:d:-;UU",
 		"zz l:-", "ca l:- extra", "as L1:dff:-", "ca l:1cb:2", "as L1:d:-:3"}
 	for _, b := range bad {
